@@ -103,6 +103,9 @@ def bits2f(b):
     return struct.unpack("<d", struct.pack("<Q", int(b)))[0]
 
 
+CONTENT_ATTRS = ("size", "current_index", "row_indices", "col_indices", "values")
+
+
 def cdm_snapshot(m):
     """every attribute of the object by introspection: arrays as (dtype-agnostic) filled-prefix bytes, scalars as ints"""
     out = {}
@@ -228,9 +231,11 @@ def case_assembly(dc, case, res, tmp, tie=None, tie_calc=False):
         back = dc.ChunkedDistanceMatrix.load(fn)
         sa, sb = cdm_snapshot(m), cdm_snapshot(back)
         sa.pop("chunk_size", None), sb.pop("chunk_size", None)
-        if sa != sb:
-            res.fail("load(save(m)) differs from m in some attribute", dict(case, chunk=c),
-                     sorted(k_ for k_ in set(sa) | set(sb) if sa.get(k_) != sb.get(k_)), "every attribute equal on the filled prefix")
+        diff = sorted(k_ for k_ in set(sa) | set(sb) if sa.get(k_) != sb.get(k_))
+        if any(k_ in CONTENT_ATTRS for k_ in diff):
+            res.fail("load(save(m)) is another matrix than m (size / stored pairs / values)", dict(case, chunk=c), diff, "same content")
+        elif diff:      # attributes that are not the matrix content: the model's business
+            res.disagree("C07:attributes-after-load", {"case": dict(case, chunk=c)}, diff, "every attribute equal")
         if tie is not None and tie_calc:
             tie.add("calc %d %d %d %d" % (n, c, k, z), show_cdm(m), ("calc", n, c, k, z))
     if case.get("share"):          # the SAME loaded object for every repetition of a chunk index (object reuse inside concat)
@@ -263,13 +268,25 @@ def case_assembly(dc, case, res, tmp, tie=None, tie_calc=False):
         if before is not None and not case.get("big"):
             # class input-mutation / aliasing: concat leaves the matrices it was given as they were; a second concat of the same objects
             # in reverse order neither raises nor disturbs the first result
-            if [cdm_snapshot(m) for m in loaded] != before:
-                res.fail("concat changes the matrices it is given", case, "an input matrix changed", "inputs unchanged")
+            if [cdm_snapshot(m) for m in loaded] != before:     # purity is not a clause of the property: tie
+                res.disagree("C07:concat-mutates-inputs", {"case": case}, "an input matrix changed", "inputs unchanged")
             dense_copy = dense.copy()
             again = dc.ChunkedDistanceMatrix.concat(loaded[::-1]).to_dense()
-            if not (np.array_equal(again, dense_copy) and np.array_equal(cat.to_dense(), dense_copy) and np.array_equal(dense, dense_copy)):
-                res.fail("a second concat of the same objects (reverse order) gives another matrix or disturbs the first result", case,
-                         again.tolist(), dense_copy.tolist())
+            if not np.array_equal(again, dense_copy):           # "in any order": the same files combined the other way round
+                res.fail("combining the same loaded chunks in reverse order gives another matrix", case, again.tolist(), dense_copy.tolist())
+            if not (np.array_equal(cat.to_dense(), dense_copy) and np.array_equal(dense, dense_copy)):
+                res.disagree("C07:result-aliased", {"case": case}, "first result changed by a later concat", "unchanged")
+        if len(loaded) > 1 and not case.get("big"):
+            # class instalments: the combined matrix saved (to a path that held ANOTHER matrix before) and loaded again is the same matrix
+            fn2 = os.path.join(tmp, "merged.h5")
+            loaded[0].save(fn2)
+            cat.save(fn2)
+            again2 = dc.ChunkedDistanceMatrix.load(fn2)
+            os.unlink(fn2)
+            sa, sb = cdm_snapshot(cat), cdm_snapshot(again2)
+            if any(sa.get(k_) != sb.get(k_) for k_ in CONTENT_ATTRS) or not np.array_equal(again2.to_dense(), dense):
+                res.fail("the combined matrix, saved over an older file and loaded, is another matrix", case,
+                         sorted(k_ for k_ in CONTENT_ATTRS if sa.get(k_) != sb.get(k_)), "same content")
         if tie is not None:
             tie.add("dense " + "/".join(cdm_arg(m) for m in loaded), show_dense_int(dense, n), ("dense", n, k, z, order))
             tie.add("assemble %d %d %d %s" % (n, k, z, int_list(order)), show_dense_int(dense, n), ("assemble", n, k, z, order))
@@ -295,10 +312,61 @@ def case_assembly(dc, case, res, tmp, tie=None, tie_calc=False):
                     tie.add("dense " + "/".join(cdm_arg(m) for m in part), "err:ValueError", ("dense-incomplete", n, k, drop))
                     tie.add("assemble %d %d %d %s" % (n, k, z, int_list(rest)), "err:ValueError", ("assemble-incomplete", n, k, drop))
             except Exception as e:
-                res.fail("concat of partial chunk set raises", dict(case), type(e).__name__, "ok")
+                # the property only says that a matrix lacking a pair is not densified; WHERE the refusal happens is the model's business
+                res.disagree("C07:partial-concat-raises", {"case": dict(case)}, type(e).__name__, "concat succeeds, to_dense raises ValueError")
     for fn in files.values():
         os.unlink(fn)
     return len(nonempty)
+
+
+class TempTheta:
+    def __init__(self, i, L, seed):
+        self.i, self.L, self.seed = i, L, seed
+
+    def predict_viability(self, data):
+        # a NEW array of the same size on every call (a temporary for the caller)
+        return np.random.default_rng([self.seed, self.i]).normal(size=self.L)
+
+
+class TempThetas:
+    """every get_theta builds a new sample object; every prediction is a new array of equal size"""
+
+    def __init__(self, n, L, seed):
+        self.n_thetas, self.L, self.seed = n, L, seed
+
+    def get_theta(self, i):
+        return TempTheta(int(i), self.L, self.seed)
+
+
+def case_temps(dc, case, res):
+    """class identity-cache / object lifetime: ONE real MSEDistance object and the real calculate loop are fed temporaries of equal size
+    (sample objects and prediction arrays that die after each pair, so CPython hands their addresses to the next ones); every entry must be
+    the metric -- a fresh object on fresh arrays -- of the two samples' predictions.  Then the same metric object is called on temporaries
+    directly, keeping only the results."""
+    from batchie.distance.mse import MSEDistance
+    n, k, L, seed, sig = case["n"], case["n_chunks"], case["L"], case["seed"], case["sigmoid"]
+    th = TempThetas(n, L, seed)
+    metric = MSEDistance(sigmoid=sig)
+    try:
+        parts = [dc.calculate_pairwise_distance_matrix_on_predictions(th, metric, None, c, k) for c in case["order"]]
+        dense = dc.ChunkedDistanceMatrix.concat(parts).to_dense()
+        direct = [metric.distance(th.get_theta(i).predict_viability(None), th.get_theta(j).predict_viability(None))
+                  for i in range(n) for j in range(i)]
+    except Exception as e:  # noqa
+        res.fail("distance computation on temporaries raises", case, "%s: %s" % (type(e).__name__, e), "matrix")
+        return
+    want = np.zeros((n, n))
+    wd = []
+    for i in range(n):
+        for j in range(i):
+            want[i, j] = want[j, i] = MSEDistance(sigmoid=sig).distance(th.get_theta(i).predict_viability(None), th.get_theta(j).predict_viability(None))
+            wd.append(want[i, j])
+    if not np.array_equal(dense, want):
+        res.fail("matrix entry is not the metric applied to the two samples' predictions (predictions are temporaries of equal size)", case,
+                 {"differing_cells": int(np.sum(dense != want))}, "equal to a fresh metric object on fresh arrays")
+    elif [float(x) for x in direct] != [float(x) for x in wd]:
+        res.fail("a reused metric object called on temporaries gives another distance than a fresh one", case,
+                 {"differing": sum(1 for a_, b_ in zip(direct, wd) if a_ != b_)}, "equal")
 
 
 def file_matches_memory(m, fn):
@@ -350,9 +418,8 @@ def case_boundary(dc, case, res, tmp):
             m.save(fn)
             files.append(fn)
             bad = file_matches_memory(m, fn)
-            if bad:
-                res.fail("saved chunk file does not hold the indices / values of the matrix in memory", dict(case, chunk=c), bad, "file values == memory values")
-                return
+            if bad:     # how a file encodes the matrix is not a clause of the property (tie); what load() makes of it is checked next
+                res.disagree("C07:file-encoding", {"case": dict(case, chunk=c)}, bad, "file values == memory values")
             back = dc.ChunkedDistanceMatrix.load(fn)
             cur = int(m.current_index)
             if int(back.current_index) != cur or [int(x) for x in back.row_indices[:cur]] != [int(x) for x in m.row_indices[:cur]] or \
@@ -550,21 +617,31 @@ def case_cli(dc, case, res, tmp, tie=None):
                 return
             ma, mb = dc.ChunkedDistanceMatrix.load(outs[c]), dc.ChunkedDistanceMatrix.load(out2)
             sa, sb = cdm_snapshot(ma), cdm_snapshot(mb)
-            if sa != sb:
+            if any(sa.get(k_) != sb.get(k_) for k_ in CONTENT_ATTRS):
                 res.fail("a chunk computed in another process (other PYTHONHASHSEED) differs from the one computed here", dict(case, chunk=c),
-                         sorted(k_ for k_ in sa if sa.get(k_) != sb.get(k_)), "bit-equal chunk files")
+                         sorted(k_ for k_ in CONTENT_ATTRS if sa.get(k_) != sb.get(k_)), "same pairs and values")
             os.unlink(out2)
     # direct reference: MSE on predict_viability of the reloaded inputs
     with contextlib.redirect_stdout(io.StringIO()):
         screen = Screen.load_h5(data_fn)
         hs = [ThetaHolder.load_h5(f) for f in theta_fns]
-    preds = [t.predict_viability(screen) for h in hs for t in h.thetas]
+    from batchie.distance.mse import MSEDistance
+    all_thetas = [t for h in hs for t in h.thetas]
+    preds = [t.predict_viability(screen) for t in all_thetas]
     sig = True if case.get("sigmoid") is None else case["sigmoid"]
+    # what the property states: entry (i,j) is THE CONFIGURED METRIC applied to the two samples' predictions (a fresh metric object and
+    # fresh prediction arrays per pair, so that no state of the code under test leaks into the reference), zero on the diagonal.
+    # That the metric is the mean squared difference is the model's business: compared below as a tie, not as a violation.
     want = np.zeros((n, n))
+    formula = np.zeros((n, n))
     for i in range(n):
-        for j in range(n):
+        for j in range(i):
+            mo = MSEDistance() if case.get("sigmoid") is None else MSEDistance(sigmoid=case["sigmoid"])
+            want[i, j] = want[j, i] = mo.distance(all_thetas[i].predict_viability(screen), all_thetas[j].predict_viability(screen))
             a, b = (expit(preds[i]), expit(preds[j])) if sig else (preds[i], preds[j])
-            want[i, j] = np.mean((a - b) ** 2)
+            formula[i, j] = formula[j, i] = np.mean((a - b) ** 2)
+    if not np.allclose(want, formula, rtol=1e-12, atol=1e-15):
+        res.disagree("C07:cli-metric-formula", {"case": case}, "metric(pred_i, pred_j)", "mean squared difference of (expit of) the predictions")
     loaded = {c: dc.ChunkedDistanceMatrix.load(outs[c]) for c in range(k)}
     nonempty = sum(1 for c in range(k) if loaded[c].current_index > 0)
     for c in range(k):
@@ -583,7 +660,7 @@ def case_cli(dc, case, res, tmp, tie=None):
         res.fail("assembly of CLI chunk files raises", case, "%s: %s" % (type(e).__name__, e), "complete matrix")
         return nonempty
     if dense.shape != want.shape or not np.allclose(dense, want, rtol=1e-12, atol=1e-15):
-        res.fail("CLI-assembled matrix differs from direct MSE on predict_viability", case,
+        res.fail("CLI-assembled matrix differs from the metric applied to the samples' predict_viability", case,
                  {"max_abs_diff": float(np.max(np.abs(dense - want))) if dense.shape == want.shape else str(dense.shape)}, "equal (rtol 1e-12)")
     if not np.array_equal(dense, dense.T) or np.any(np.diag(dense) != 0) or np.any(dense < 0):
         res.fail("CLI-assembled matrix not symmetric / zero-diagonal / non-negative", case, dense.tolist(), "symmetric, zero diagonal, >= 0")
@@ -619,26 +696,45 @@ def case_metric(case, res, tie=None):
         a.flags.writeable = False
         b.flags.writeable = False
     a0, b0 = a.copy(), b.copy()
+
+    def view(x):
+        """a fresh array with the case's layout holding the values x (so that one call cannot disturb the next)"""
+        if layout == "strided":
+            base_ = np.empty(2 * len(x), dtype=float)
+            base_[0::2] = x
+            return base_[0::2]
+        if layout == "negstride":
+            return x[::-1].copy()[::-1]
+        y = x.copy()
+        if layout == "readonly":
+            y.flags.writeable = False
+        return y
+
     # class object-reuse: ONE metric object per sigmoid setting serves every case of the run (vectors of different lengths);
     # its answers must be those of a fresh object
     m = _SHARED_METRIC.setdefault(bool(sig), MSEDistance(sigmoid=sig))
     try:
         fresh = MSEDistance(sigmoid=sig).distance(a0.copy(), b0.copy())
-        if m.distance(a, b) != fresh:
-            res.fail("a metric object that was used before gives another distance than a fresh one", case, None, float(fresh))
+        # the metric laws, every call on fresh arrays
+        dab, dba, daa = m.distance(view(a0), view(b0)), m.distance(view(b0), view(a0)), m.distance(*(lambda v: (v, v))(view(a0)))
+        dac = m.distance(view(a0), view(a0))        # identical predictions held in two different arrays
     except Exception as e:  # noqa
-        res.fail("metric raises", case, "%s: %s" % (type(e).__name__, e), "a distance")
+        if layout == "readonly":     # the property does not promise that read-only arrays are accepted: tie only
+            res.disagree("C07:metric-readonly", {"case": case}, "%s" % type(e).__name__, "a distance")
+        else:
+            res.fail("metric raises", case, "%s: %s" % (type(e).__name__, e), "a distance")
         return
-    try:
-        dab, dba, daa = m.distance(a, b), m.distance(b, a), m.distance(a, a)
-        dac = m.distance(a, a0)        # identical predictions held in two different arrays
-    except Exception as e:  # noqa
-        res.fail("metric raises", case, "%s: %s" % (type(e).__name__, e), "a distance")
-        return
-    if not (np.array_equal(a, a0) and np.array_equal(b, b0)):
-        res.fail("metric changes the prediction arrays it is given", case, {"a_changed": not np.array_equal(a, a0), "b_changed": not np.array_equal(b, b0)},
-                 "arguments unchanged (the same prediction is compared with many others)")
-        a, b = a0.copy(), b0.copy()
+    if dab != fresh:
+        res.fail("a metric object that was used before gives another distance than a fresh one", case, float(dab), float(fresh))
+    # purity is not a clause of the property (tie only): d(a,b) then d(b,a) on the SAME arrays
+    if layout != "readonly":
+        try:
+            m.distance(a, b), m.distance(b, a)
+            if not (np.array_equal(a, a0) and np.array_equal(b, b0)):
+                res.disagree("C07:metric-mutates-arguments", {"case": case}, "arguments changed", "arguments unchanged")
+        except Exception as e:  # noqa
+            res.disagree("C07:metric-mutates-arguments", {"case": case}, type(e).__name__, "arguments unchanged")
+    a, b = a0, b0
     if dac != 0:
         res.fail("metric non-zero on identical predictions", case, dac, 0)
     if dab != dba:
@@ -647,11 +743,10 @@ def case_metric(case, res, tie=None):
         res.fail("metric negative", case, dab, ">= 0")
     if daa != 0:
         res.fail("metric non-zero on identical predictions", case, daa, 0)
+    # the formula itself (mean squared difference) is the model's: tie
     ref = float(np.mean(((expit(a0) - expit(b0)) if sig else (a0 - b0)) ** 2))
-    if not np.array_equal(a0, b0) and ref > 0 and not (dab > 0):
-        res.fail("metric zero on different predictions", case, dab, ref)
     if abs(ref - dab) > 1e-12 * max(1.0, abs(ref)):
-        res.fail("metric differs from mean squared difference", case, dab, ref)
+        res.disagree("C07:metric-formula", {"case": case}, float(dab), ref)
     if tie is not None:
         def close(expect, got, ref=float(dab)):
             try:
@@ -684,6 +779,8 @@ SMALL_HANDBUILT = [
 
 def count_assembly_classes(res, case):
     n, k, order = case["n"], case["n_chunks"], case["order"]
+    if len(order) > 1:
+        res.count("class.instalments")                        # chunk files are instalments; the merged matrix is saved over an older file
     N = n * (n - 1) // 2
     size = lambda c: (N // k) + (1 if c < N % k else 0)      # noqa: E731
     res.count("class.object-reuse")                           # one metric + holder object for all chunks
@@ -810,7 +907,7 @@ def run(ctx, res):
     try:
         # ---------- B. assembly through real save/load/concat ---------------------------
         rng = ctx.subrng("asm")
-        n_asm = ctx.scale(150, 1500, 600)
+        n_asm = ctx.scale(110, 1500, 600)
         for t in range(n_asm):
             if t < len(SMALL_ASSEMBLIES):     # small fixed cases first so that a replay is small when these already fail
                 case, has_reps = dict(SMALL_ASSEMBLIES[t], kind="assembly"), len(SMALL_ASSEMBLIES[t]["order"]) > SMALL_ASSEMBLIES[t]["n_chunks"]
@@ -846,6 +943,19 @@ def run(ctx, res):
             res.evaluations += 1
             case_assembly(dc, case, res, tmp, None)
             res.count("assembly.big_single_chunk")
+        # ---------- B1bb. class identity-cache: temporaries of equal size through the real metric and the real loop -------------------
+        trng = ctx.subrng("temps")
+        for t in range(ctx.scale(8, 60)):
+            n_ = trng.choice([3, 4, 6, 9])
+            N_ = n_ * (n_ - 1) // 2
+            k_ = trng.choice([1, 2, 3, N_ + 1])
+            order_ = list(range(k_))
+            trng.shuffle(order_)
+            case = {"kind": "temps", "n": n_, "n_chunks": k_, "order": order_, "L": trng.choice([1, 5, 40]), "seed": trng.randrange(10 ** 6),
+                    "sigmoid": trng.choice([True, False])}
+            res.evaluations += 1
+            case_temps(dc, case, res)
+            res.count("class.identity-cache")
         # ---------- B1c. class size-boundaries x dtype: sizes straddling 127/128 and 255/256 -----------------------------------
         bcases = [{"kind": "boundary", "n": n_, "n_chunks": 1, "mode": "full"} for n_ in (127, 128, 129, 200, 255, 256, 257)]
         bcases += [{"kind": "boundary", "n": n_, "n_chunks": 3, "mode": "sparse"} for n_ in (127, 128, 129, 200, 255, 256, 257)]
@@ -857,6 +967,7 @@ def run(ctx, res):
             case_boundary(dc, case, res, tmp)
             res.count("class.size-boundaries")
             res.count("class.layout-dtype")
+            res.count("class.int-width")
             res.count("boundary.%s.n%d" % (case["mode"], case["n"]))
         # ---------- B2. hand-built matrices (repeats / missing pairs) ---------------------
         rng = ctx.subrng("hand")
@@ -917,7 +1028,7 @@ def run(ctx, res):
             tie.add("build %d %s" % (n, ";".join("%d,%d,%d" % e for e in es)), out, ("build", n, len(es)))
         # ---------- B3. the real CLI end to end -------------------------------------------
         rng = ctx.subrng("cli")
-        for t in range(ctx.scale(25, 200, 80)):
+        for t in range(ctx.scale(20, 200, 80)):
             case = gen_cli(rng)
             res.evaluations += 1
             ne = case_cli(dc, case, res, tmp, tie)
@@ -1004,6 +1115,8 @@ def replay(ctx, case, res):
             case_handbuilt(dc, case, res, tmp)
         elif kind == "boundary":
             case_boundary(dc, case, res, tmp)
+        elif kind == "temps":
+            case_temps(dc, case, res)
         elif kind == "cli":
             case_cli(dc, case, res, tmp)
         elif kind == "metric":
